@@ -1,5 +1,6 @@
 """C03 -- inbound packets are reassembled and validated independent of read fragmentation."""
 import os
+import re
 import subprocess
 import sys
 import time
@@ -44,7 +45,20 @@ def summarize(out):
     return [common.typed(r) if "exc" not in r else {"exc": r["exc"]} for r in out.results]
 
 
+K2_RE = re.compile(r"Timeout: read (\d+) of (\d+) bytes")
+
+
 def check_frag(case):
+    v, info = _check_frag(case)
+    if v is not None and info.get("_k2"):
+        # known finding K2: the deadline of a read passed between two fragments of one block; the bytes already read were thrown away and the
+        # connection lost packet synchronisation.  Only a violation that comes with that very event is attributed to K2.
+        v = Violation("K2-partial-block-discarded-at-deadline", "%s -- after %s; first symptom: %s: %s" % (info["_k2"][1], info["_k2"][0], v.rule, v.detail[:300]), signature="K2")
+    info.pop("_k2", None)
+    return v, info
+
+
+def _check_frag(case):
     base = dict(case)
     base["transport"] = dict(case["transport"], frag=[])
     o1 = runner.run(base)
@@ -53,6 +67,11 @@ def check_frag(case):
     if o1.watchdog or o2.watchdog:
         info["inconclusive"] = True
         return None, info
+    for i, (ra, rb) in enumerate(zip(o1.results, o2.results)):
+        m = K2_RE.search(rb.get("msg", "")) if rb.get("exc") == "AdbTimeoutError" else None
+        if m and 0 < int(m.group(1)) < int(m.group(2)) and not (ra.get("exc") == "AdbTimeoutError" and K2_RE.search(ra.get("msg", "")) and 0 < int(K2_RE.search(ra["msg"]).group(1))):
+            info["_k2"] = ("op %d %r" % (i, o2.ops[i].get("op")), rb["msg"])
+            break
     for o, name in ((o1, "whole"), (o2, "fragmented")):
         if o.core.overreads:
             idx, req, rem = o.core.overreads[0]
